@@ -1081,7 +1081,15 @@ impl<'a> GeneratorState<'a> {
     fn generate_strobe_statement(&mut self, expr: &Expr, pos: usize) -> Result<(), Error> {
         match expr {
             Expr::Identifier(name, _) => {
-                let v = self.compiler_state.get_variable(name);
+                // X, Y and unknown names are not variables
+                let v = match self.compiler_state.variables.get(name) {
+                    Some(v) => v,
+                    None => {
+                        return Err(self
+                            .compiler_state
+                            .syntax_error("Strobe only works on memory pointers", pos))
+                    }
+                };
                 match v.var_type {
                     VariableType::CharPtr => {
                         // A strobe is an explicit hardware access: never to be optimized out
